@@ -15,7 +15,7 @@ def cfg(nq, nt, preds, rule, assume=None, tb=None):
 SRC_TIED = ["C01", "C02", "C03", "C04", "C05", "C06", "C07", "C08", "C09", "C15", "C16", "C17", "C18"]
 
 PROPS = {
-    "C03": cfg(20000, 1000000, ["C03."],
+    "C03": cfg(20000, 1000000, ["C03.", "C09.shape_forward"],
                "robot zoo (11 presets; random signs/offsets; random geometry with b!=0, a2!=0, negative a1, zero lengths) x "
                "joint vectors with |q| up to pi, 2pi, 10, 100, 1e4; every 5th case wrapped in tool/base/frame/parallelogram; "
                "every 4th case a prefix-dependence pair. distinct = distinct case lines (hash); non-trivial = every case "
@@ -49,7 +49,7 @@ PROPS = {
                "on the same query (superset) and inverse_continuing_5dof; dense random-walk trajectories of 200 steps where each "
                "call's previous is the preceding first answer; Frame::forward_transformed (ordered by closeness to the given previous joints). "
                "non-trivial = at least one solution returned"),
-    "C02": dict(cfg(3000, 300000, ["C02.", "C06.origin", "C06.reachable_nonempty"],
+    "C02": dict(cfg(3000, 300000, ["C02.", "C06.origin", "C06.reachable_nonempty", "C01.fk"],
                "robot zoo x random joint vectors kept away from wrist/elbow/shoulder singularities by margins {1e-3,1e-2,1e-1} on "
                "|sin theta5|, |sin(theta3+psi3)| and |cx1| (computed by the generator and re-checked by the driver's oracle); for "
                "each: answers of inverse(forward(q)) and the size of the answer set of the pose of every returned solution; every third "
